@@ -85,4 +85,8 @@ PROPS = {
         'theorems': ['reconcile_updates_exactly', 'index_sound', 'reconcile_ignores', 'other_namespace_not_indexed', 'refuse_cross_namespace', 'rotation_stable', 'token_request_uses_current', 'secret_key_matches_source'],
         'trusted': ['controller-runtime client and its fake; the watch machinery that turns Secret events into Reconcile calls', 'the write of ClientSecretConfig is unsynchronised with concurrent checks (see C16 known finding)', 'hook: harness/export/internal__k8s/export.go (build tag verif, added by overlay) sets the unexported namespace/k8sClient fields'],
     },
+    'C17': {
+        'theorems': ['accepted_resolved', 'merged_callback_was_checked', 'url_check_meaning', 'merge_fieldwise', 'scope_defaulting', 'rejected_is_error', 'untyped_filter_rejected', 'scope_constant_matches_source'],
+        'trusted': ['protojson decoding (the model starts from the decoded document); net/url.Parse, redis.ParseURL and net.ParseIP are oracles', 'only the fields that take part in loading are modelled (TLS/CA fields, skip_verify, fetch intervals are carried by the real code, not by the model)', 'hook: harness/export/internal/export.go (build tag verif) constructs LocalConfigFile with a path'],
+    },
 }
